@@ -24,7 +24,7 @@ for p in props:
     })
 man = {
     'version': 1,
-    'setup_cmd': 'cd lean && lake build && lake build ' + ' '.join('nbd_' + c['property_id'].lower() for c in checks),
+    'setup_cmd': 'cd lean && lake build ' + ' '.join('NibabelModel.Props.' + c['property_id'] for c in checks) + ' ' + ' '.join('nbd_' + c['property_id'].lower() for c in checks),
     'hooks': {'guard': 'NIBABEL_VERIF', 'enable': 'no source hooks: the harness instruments through public APIs (file_map / fileobj arguments, module-global rebinding) with NIBABEL_VERIF=1 set by ./check',
               'baseline_off_cmd': 'cd /repo && /venv/bin/python -m pytest -q -p no:cacheprovider --timeout=900 --continue-on-collection-errors',
               'source_commits': [], 'add_only': True},
